@@ -199,10 +199,6 @@ pub struct Prog {
     /// number of chunks added so far under the documented chunking rule (len <= cs: one chunk, else ceil(len/cs))
     pub pos: usize,
     pub cs: usize,
-    /// a De step started at a chunk position > 0 (expected finding: block index restarts at 0)
-    pub kf_index: bool,
-    /// an encrypted chunk with an empty payload was added (expected finding: decoder's `< 17` check)
-    pub kf_empty: bool,
     pub builder_err: bool,
     /// decode parse(serialise(file)) instead of the built value
     pub via_bytes: bool,
@@ -215,8 +211,6 @@ impl Prog {
             off: 0,
             pos: 0,
             cs,
-            kf_index: false,
-            kf_empty: false,
             builder_err: false,
             via_bytes: false,
         }
@@ -233,25 +227,13 @@ impl Prog {
         let r = match kind {
             K::Dn => b.without_encryption().add_data(data),
             K::De => {
-                if self.pos > 0 {
-                    self.kf_index = true;
-                }
-                if len == 0 {
-                    self.kf_empty = true;
-                }
                 b.with_encryption(s.spec_a(), s.key_a).add_data(data)
             }
             K::Mn => b.add_mixed_data(data, None),
             K::Me => {
-                if len == 0 {
-                    self.kf_empty = true;
-                }
                 b.add_mixed_data(data, Some((s.spec_b(), s.key_b)))
             }
             K::X => {
-                if len == 0 {
-                    self.kf_empty = true;
-                }
                 // the decoder uses the chunk position as block index; only its low 32 bits reach the cipher
                 let bi = self.pos | (s.hi as usize) << 32;
                 b.add_encrypted_data(data, s.spec_b(), s.key_b, bi)
@@ -326,12 +308,6 @@ impl Prog {
             Err(_) => (false, false, false),
         };
         kani::cover!(ok && same_len, "decode succeeded with the right length");
-        if self.kf_empty {
-            assert!(ok, "KF: empty payload in an encrypted chunk: builder accepts it, decoder rejects the container (encrypted chunk shorter than 17 bytes)");
-        }
-        if self.kf_index && s.ty_a == 0x53 {
-            assert!(ok && same_len && same_byte, "KF: add_data under with_encryption after earlier chunks encrypts with block index 0.. while the decoder uses the global chunk index: container does not decode to the added bytes");
-        }
         assert!(ok, "decoder rejected a container the builder produced");
         assert!(same_len, "decoded length differs from the total payload length");
         assert!(same_byte, "decoded bytes differ from the concatenation of the added payloads");
@@ -427,6 +403,8 @@ pub fn check_table<const T: usize>(file: &BlteFile, s: &Sym<T>) {
                 // wire layout of the encrypted-chunk header (independent of the decoder)
                 let d = &c.data;
                 assert!(d.len() >= 16, "encrypted chunk shorter than header + inner mode byte");
+                // 15-byte header + inner mode byte 'N' + payload: the table records what the chunk decodes to
+                assert!(info.decompressed_size as usize == d.len() - 16, "table decompressed_size of an encrypted chunk != payload bytes it decodes to");
                 assert!(d[0] == 8 && d[9] == 4, "encrypted chunk header: key-name size 8, IV size 4");
                 let name = u64::from_le_bytes([d[1], d[2], d[3], d[4], d[5], d[6], d[7], d[8]]);
                 let is_a = name == s.name_a && d[10] == s.iv_a[0] && d[11] == s.iv_a[1] && d[12] == s.iv_a[2] && d[13] == s.iv_a[3] && d[14] == s.ty_a;
@@ -515,10 +493,13 @@ blte_prog!(c01_prog_x1_s, 1, S S, [X 1]);
 blte_prog!(c01_prog_x3_a, 1, S A, [X 3]);
 blte_prog!(c01_prog_c0, 1, S S, [C 0]);
 blte_prog!(c01_prog_c3, 1, S S, [C 3]);
+blte_prog!(c01_prog_empty_de0, 1, S S, [De 0]);
+blte_prog!(c01_prog_empty_me0, 1, S S, [Me 0]);
+blte_prog!(c01_prog_empty_x0_arc4, 1, S A, [X 0]);
 // @end
 
 // @family prop=C01 tier=quick timeout=600 role=builder-program-2calls
-// @bounds two builder calls (every ordered pair of kinds except plain/plain renamings; pairs ending in add_data-under-encryption are in the finding family); kind letters: dn = add_data plain (after without_encryption), de = add_data under with_encryption(spec A), mn / me = add_mixed_data(None / Some(spec B)), x = add_encrypted_data(spec B, explicit block index), c = add_chunk(ChunkData::new(.., None)); digit = payload length of that call; cs<k> = chunk size; payload bytes, two distinct key names, both IVs, both 16-byte keys, high 32 bits of the explicit block index, observed output index: all symbolic
+// @bounds two builder calls (every ordered pair of kinds except plain/plain renamings, incl. add_data under with_encryption at chunk position > 0 and empty payloads under encryption); kind letters: dn = add_data plain (after without_encryption), de = add_data under with_encryption(spec A), mn / me = add_mixed_data(None / Some(spec B)), x = add_encrypted_data(spec B, explicit block index), c = add_chunk(ChunkData::new(.., None)); digit = payload length of that call; cs<k> = chunk size; payload bytes, two distinct key names, both IVs, both 16-byte keys, high 32 bits of the explicit block index, observed output index: all symbolic
 // @encodes cascette_formats::blte::BlteBuilder::add_data, cascette_formats::blte::BlteBuilder::add_mixed_data, cascette_formats::blte::BlteBuilder::add_encrypted_data, cascette_formats::blte::BlteBuilder::add_chunk, cascette_formats::blte::BlteBuilder::with_encryption, cascette_formats::blte::BlteBuilder::without_encryption, cascette_formats::blte::BlteBuilder::with_chunk_size_unchecked, cascette_formats::blte::BlteBuilder::build, cascette_formats::blte::BlteBuilder::create_encrypted_chunk, cascette_formats::blte::BlteBuilder::create_encrypted_chunk_with_params, cascette_formats::blte::BlteBuilder::build_inner_payload, cascette_formats::blte::encrypt_chunk_with_key, cascette_formats::blte::decrypt_chunk_with_keys, cascette_formats::blte::decompress_chunk, cascette_formats::blte::BlteFile::decompress_with_keys, cascette_formats::blte::BlteHeader::multi_chunk_with_flags, cascette_formats::blte::BlteHeader::single_chunk, cascette_formats::blte::ChunkInfo::from_chunk_data, cascette_formats::blte::ChunkData::new, cascette_formats::blte::ChunkData::from_compressed, cascette_formats::blte::ChunkData::compressed_data, cascette_formats::blte::ChunkData::verify_checksum, cascette_formats::blte::ChunkData::decompress, cascette_crypto::salsa20::Salsa20Cipher::new, cascette_crypto::salsa20::Salsa20Cipher::apply_keystream, cascette_crypto::salsa20::encrypt_salsa20, cascette_crypto::salsa20::decrypt_salsa20, cascette_crypto::arc4::Arc4Cipher::encrypt, cascette_crypto::arc4::Arc4Cipher::decrypt
 // @assumes Salsa20 block function = uninterpreted function of the 16-word state (first 16 keystream bytes; C09 proves the real one), Salsa20Cipher::new / apply_keystream real; ARC4 keystream = uninterpreted function of the 16-byte key (KSA/PRGA proved in C09), encrypt/decrypt real; MD5 = uninterpreted function of (length, bytes <= 24); TactKeyStore add/get = two-slot association list instead of std HashMap; fmt::format off; compression mode N only (zlib / LZ4 decoders are outside: reaching one is a failed check); cipher type per chunk spec concrete per harness (name suffix: s = Salsa20, a = ARC4; first letter spec A used by with_encryption, second spec B used by add_mixed_data / add_encrypted_data); explicit block index of add_encrypted_data = chunk position + arbitrary high 32 bits; CBMC field sensitivity for heap objects <= 1024 bytes; Kani assertion-reachability bookkeeping off
 // @catches wrong block index handed to the cipher (restart at 0, off by one, local instead of global position), key / IV / type of the wrong spec, dropped / duplicated / misordered chunk at the chunk-size boundary (<= vs <, last partial chunk), inner mode byte missing or re-interpreted (payload starting with N/Z/4/E/F), < 17 length check off by one, swapped table sizes, checksum over the wrong bytes, wrong header_size / chunk count, single-chunk header chosen for encrypted or multi-chunk content
@@ -550,27 +531,13 @@ blte_prog!(c01_prog_c1_me3_cs2, 2, S S, [C 1, Me 3]);
 blte_prog!(c01_prog_me1_mn3_cs1, 1, S S, [Me 1, Mn 3]);
 blte_prog!(c01_prog_de2_de1_cs1_arc4, 1, A A, [De 2, De 1]);
 blte_prog!(c01_prog_x1_me2_cs1_arc4b, 1, S A, [X 1, Me 2]);
-// @end
-
-// @family prop=C01 tier=quick timeout=600 role=kf-encrypted-add_data-block-index
-// @bounds two builder calls, the second is add_data under with_encryption(Salsa20) starting at chunk position > 0; kind letters: dn = add_data plain (after without_encryption), de = add_data under with_encryption(spec A), mn / me = add_mixed_data(None / Some(spec B)), x = add_encrypted_data(spec B, explicit block index), c = add_chunk(ChunkData::new(.., None)); digit = payload length of that call; cs<k> = chunk size; payload bytes, two distinct key names, both IVs, both 16-byte keys, high 32 bits of the explicit block index, observed output index: all symbolic
-// @encodes cascette_formats::blte::BlteBuilder::add_data, cascette_formats::blte::BlteBuilder::add_mixed_data, cascette_formats::blte::BlteBuilder::add_encrypted_data, cascette_formats::blte::BlteBuilder::add_chunk, cascette_formats::blte::BlteBuilder::with_encryption, cascette_formats::blte::BlteBuilder::without_encryption, cascette_formats::blte::BlteBuilder::with_chunk_size_unchecked, cascette_formats::blte::BlteBuilder::build, cascette_formats::blte::BlteBuilder::create_encrypted_chunk, cascette_formats::blte::BlteBuilder::create_encrypted_chunk_with_params, cascette_formats::blte::BlteBuilder::build_inner_payload, cascette_formats::blte::encrypt_chunk_with_key, cascette_formats::blte::decrypt_chunk_with_keys, cascette_formats::blte::decompress_chunk, cascette_formats::blte::BlteFile::decompress_with_keys, cascette_formats::blte::BlteHeader::multi_chunk_with_flags, cascette_formats::blte::BlteHeader::single_chunk, cascette_formats::blte::ChunkInfo::from_chunk_data, cascette_formats::blte::ChunkData::new, cascette_formats::blte::ChunkData::from_compressed, cascette_formats::blte::ChunkData::compressed_data, cascette_formats::blte::ChunkData::verify_checksum, cascette_formats::blte::ChunkData::decompress, cascette_crypto::salsa20::Salsa20Cipher::new, cascette_crypto::salsa20::Salsa20Cipher::apply_keystream, cascette_crypto::salsa20::encrypt_salsa20, cascette_crypto::salsa20::decrypt_salsa20, cascette_crypto::arc4::Arc4Cipher::encrypt, cascette_crypto::arc4::Arc4Cipher::decrypt
-// @assumes Salsa20 block function = uninterpreted function of the 16-word state (first 16 keystream bytes; C09 proves the real one), Salsa20Cipher::new / apply_keystream real; ARC4 keystream = uninterpreted function of the 16-byte key (KSA/PRGA proved in C09), encrypt/decrypt real; MD5 = uninterpreted function of (length, bytes <= 24); TactKeyStore add/get = two-slot association list instead of std HashMap; fmt::format off; compression mode N only (zlib / LZ4 decoders are outside: reaching one is a failed check); cipher type per chunk spec concrete per harness (name suffix: s = Salsa20, a = ARC4; first letter spec A used by with_encryption, second spec B used by add_mixed_data / add_encrypted_data); explicit block index of add_encrypted_data = chunk position + arbitrary high 32 bits; CBMC field sensitivity for heap objects <= 1024 bytes; Kani assertion-reachability bookkeeping off
-// @catches wrong block index handed to the cipher (restart at 0, off by one, local instead of global position), key / IV / type of the wrong spec, dropped / duplicated / misordered chunk at the chunk-size boundary (<= vs <, last partial chunk), inner mode byte missing or re-interpreted (payload starting with N/Z/4/E/F), < 17 length check off by one, swapped table sizes, checksum over the wrong bytes, wrong header_size / chunk count, single-chunk header chosen for encrypted or multi-chunk content ; EXPECTED TO FAIL on the unchanged tree (genuine defect): assertion 'KF: add_data under with_encryption after earlier chunks ...' and the zlib/LZ4-decoder-reached checks
-blte_prog!(c01_kf_index_de2_de1_cs1, 1, S S, [De 2, De 1]);
-blte_prog!(c01_kf_index_me2_de1_cs1, 1, S S, [Me 2, De 1]);
-blte_prog!(c01_kf_index_c1_de1_cs1, 1, S S, [C 1, De 1]);
-// @end
-
-// @family prop=C01 tier=quick timeout=600 role=kf-encrypted-empty-payload
-// @bounds programs containing an encrypted chunk with an empty payload; kind letters: dn = add_data plain (after without_encryption), de = add_data under with_encryption(spec A), mn / me = add_mixed_data(None / Some(spec B)), x = add_encrypted_data(spec B, explicit block index), c = add_chunk(ChunkData::new(.., None)); digit = payload length of that call; cs<k> = chunk size; payload bytes, two distinct key names, both IVs, both 16-byte keys, high 32 bits of the explicit block index, observed output index: all symbolic
-// @encodes cascette_formats::blte::BlteBuilder::add_data, cascette_formats::blte::BlteBuilder::add_mixed_data, cascette_formats::blte::BlteBuilder::add_encrypted_data, cascette_formats::blte::BlteBuilder::add_chunk, cascette_formats::blte::BlteBuilder::with_encryption, cascette_formats::blte::BlteBuilder::without_encryption, cascette_formats::blte::BlteBuilder::with_chunk_size_unchecked, cascette_formats::blte::BlteBuilder::build, cascette_formats::blte::BlteBuilder::create_encrypted_chunk, cascette_formats::blte::BlteBuilder::create_encrypted_chunk_with_params, cascette_formats::blte::BlteBuilder::build_inner_payload, cascette_formats::blte::encrypt_chunk_with_key, cascette_formats::blte::decrypt_chunk_with_keys, cascette_formats::blte::decompress_chunk, cascette_formats::blte::BlteFile::decompress_with_keys, cascette_formats::blte::BlteHeader::multi_chunk_with_flags, cascette_formats::blte::BlteHeader::single_chunk, cascette_formats::blte::ChunkInfo::from_chunk_data, cascette_formats::blte::ChunkData::new, cascette_formats::blte::ChunkData::from_compressed, cascette_formats::blte::ChunkData::compressed_data, cascette_formats::blte::ChunkData::verify_checksum, cascette_formats::blte::ChunkData::decompress, cascette_crypto::salsa20::Salsa20Cipher::new, cascette_crypto::salsa20::Salsa20Cipher::apply_keystream, cascette_crypto::salsa20::encrypt_salsa20, cascette_crypto::salsa20::decrypt_salsa20, cascette_crypto::arc4::Arc4Cipher::encrypt, cascette_crypto::arc4::Arc4Cipher::decrypt
-// @assumes Salsa20 block function = uninterpreted function of the 16-word state (first 16 keystream bytes; C09 proves the real one), Salsa20Cipher::new / apply_keystream real; ARC4 keystream = uninterpreted function of the 16-byte key (KSA/PRGA proved in C09), encrypt/decrypt real; MD5 = uninterpreted function of (length, bytes <= 24); TactKeyStore add/get = two-slot association list instead of std HashMap; fmt::format off; compression mode N only (zlib / LZ4 decoders are outside: reaching one is a failed check); cipher type per chunk spec concrete per harness (name suffix: s = Salsa20, a = ARC4; first letter spec A used by with_encryption, second spec B used by add_mixed_data / add_encrypted_data); explicit block index of add_encrypted_data = chunk position + arbitrary high 32 bits; CBMC field sensitivity for heap objects <= 1024 bytes; Kani assertion-reachability bookkeeping off
-// @catches wrong block index handed to the cipher (restart at 0, off by one, local instead of global position), key / IV / type of the wrong spec, dropped / duplicated / misordered chunk at the chunk-size boundary (<= vs <, last partial chunk), inner mode byte missing or re-interpreted (payload starting with N/Z/4/E/F), < 17 length check off by one, swapped table sizes, checksum over the wrong bytes, wrong header_size / chunk count, single-chunk header chosen for encrypted or multi-chunk content ; EXPECTED TO FAIL on the unchanged tree (genuine defect): assertion 'KF: empty payload in an encrypted chunk ...'
-blte_prog!(c01_kf_empty_de0, 1, S S, [De 0]);
-blte_prog!(c01_kf_empty_me0, 1, S S, [Me 0]);
-blte_prog!(c01_kf_empty_x0_arc4, 1, S A, [X 0]);
-blte_prog!(c01_kf_empty_dn1_me0, 1, S S, [Dn 1, Me 0]);
+blte_prog!(c01_prog_de2_de1_cs1, 1, S S, [De 2, De 1]);
+blte_prog!(c01_prog_me2_de1_cs1, 1, S S, [Me 2, De 1]);
+blte_prog!(c01_prog_c1_de1_cs1, 1, S S, [C 1, De 1]);
+blte_prog!(c01_prog_dn2_de1_cs1, 1, S S, [Dn 2, De 1]);
+blte_prog!(c01_prog_mn2_de1_cs1, 1, S S, [Mn 2, De 1]);
+blte_prog!(c01_prog_x1_de1_cs1, 1, S S, [X 1, De 1]);
+blte_prog!(c01_prog_empty_dn1_me0, 1, S S, [Dn 1, Me 0]);
 // @end
 
 // @family prop=C01 tier=thorough timeout=3000 mem=24 role=builder-program-3calls
@@ -610,17 +577,7 @@ blte_prog!(c01_prog3_dn2_me1_mn2_cs1_ss, 1, S S, [Dn 2, Me 1, Mn 2]);
 blte_prog!(c01_prog3_mn1_x1_dn3_cs2_ss, 2, S S, [Mn 1, X 1, Dn 3]);
 blte_prog!(c01_prog3_de3_x1_me3_cs2_as, 2, A S, [De 3, X 1, Me 3]);
 blte_prog!(c01_prog3_dn3_mn3_c3_cs3_ss, 3, S S, [Dn 3, Mn 3, C 3]);
-// @end
-
-// @family prop=C01 tier=thorough timeout=3000 mem=24 role=kf-encrypted-add_data-block-index-more
-// @bounds further programs with add_data under with_encryption(Salsa20) at chunk position > 0; kind letters: dn = add_data plain (after without_encryption), de = add_data under with_encryption(spec A), mn / me = add_mixed_data(None / Some(spec B)), x = add_encrypted_data(spec B, explicit block index), c = add_chunk(ChunkData::new(.., None)); digit = payload length of that call; cs<k> = chunk size; payload bytes, two distinct key names, both IVs, both 16-byte keys, high 32 bits of the explicit block index, observed output index: all symbolic
-// @encodes cascette_formats::blte::BlteBuilder::add_data, cascette_formats::blte::BlteBuilder::add_mixed_data, cascette_formats::blte::BlteBuilder::add_encrypted_data, cascette_formats::blte::BlteBuilder::add_chunk, cascette_formats::blte::BlteBuilder::with_encryption, cascette_formats::blte::BlteBuilder::without_encryption, cascette_formats::blte::BlteBuilder::with_chunk_size_unchecked, cascette_formats::blte::BlteBuilder::build, cascette_formats::blte::BlteBuilder::create_encrypted_chunk, cascette_formats::blte::BlteBuilder::create_encrypted_chunk_with_params, cascette_formats::blte::BlteBuilder::build_inner_payload, cascette_formats::blte::encrypt_chunk_with_key, cascette_formats::blte::decrypt_chunk_with_keys, cascette_formats::blte::decompress_chunk, cascette_formats::blte::BlteFile::decompress_with_keys, cascette_formats::blte::BlteHeader::multi_chunk_with_flags, cascette_formats::blte::BlteHeader::single_chunk, cascette_formats::blte::ChunkInfo::from_chunk_data, cascette_formats::blte::ChunkData::new, cascette_formats::blte::ChunkData::from_compressed, cascette_formats::blte::ChunkData::compressed_data, cascette_formats::blte::ChunkData::verify_checksum, cascette_formats::blte::ChunkData::decompress, cascette_crypto::salsa20::Salsa20Cipher::new, cascette_crypto::salsa20::Salsa20Cipher::apply_keystream, cascette_crypto::salsa20::encrypt_salsa20, cascette_crypto::salsa20::decrypt_salsa20, cascette_crypto::arc4::Arc4Cipher::encrypt, cascette_crypto::arc4::Arc4Cipher::decrypt
-// @assumes Salsa20 block function = uninterpreted function of the 16-word state (first 16 keystream bytes; C09 proves the real one), Salsa20Cipher::new / apply_keystream real; ARC4 keystream = uninterpreted function of the 16-byte key (KSA/PRGA proved in C09), encrypt/decrypt real; MD5 = uninterpreted function of (length, bytes <= 24); TactKeyStore add/get = two-slot association list instead of std HashMap; fmt::format off; compression mode N only (zlib / LZ4 decoders are outside: reaching one is a failed check); cipher type per chunk spec concrete per harness (name suffix: s = Salsa20, a = ARC4; first letter spec A used by with_encryption, second spec B used by add_mixed_data / add_encrypted_data); explicit block index of add_encrypted_data = chunk position + arbitrary high 32 bits; CBMC field sensitivity for heap objects <= 1024 bytes; Kani assertion-reachability bookkeeping off
-// @catches wrong block index handed to the cipher (restart at 0, off by one, local instead of global position), key / IV / type of the wrong spec, dropped / duplicated / misordered chunk at the chunk-size boundary (<= vs <, last partial chunk), inner mode byte missing or re-interpreted (payload starting with N/Z/4/E/F), < 17 length check off by one, swapped table sizes, checksum over the wrong bytes, wrong header_size / chunk count, single-chunk header chosen for encrypted or multi-chunk content ; EXPECTED TO FAIL on the unchanged tree (genuine defect)
-blte_prog!(c01_kf_index_dn2_de1_cs1, 1, S S, [Dn 2, De 1]);
-blte_prog!(c01_kf_index_mn2_de1_cs1, 1, S S, [Mn 2, De 1]);
-blte_prog!(c01_kf_index_x1_de1_cs1, 1, S S, [X 1, De 1]);
-blte_prog!(c01_kf_index3_me1_c1_de1_cs1, 1, S S, [Me 1, C 1, De 1]);
+blte_prog!(c01_prog3_me1_c1_de1_cs1, 1, S S, [Me 1, C 1, De 1]);
 // @end
 
 
@@ -643,12 +600,12 @@ macro_rules! blte_harness {
     };
 }
 
-// @family prop=C01 tier=quick timeout=600 role=kf-table-decompressed-size-encrypted
+// @family prop=C01 tier=quick timeout=600 role=table-decompressed-size-encrypted
 // @bounds one add_mixed_data(Some(spec B Salsa20)) call with a 2-byte symbolic payload, chunk size 3; keys / IVs symbolic
 // @encodes cascette_formats::blte::BlteBuilder::create_encrypted_chunk_with_params, cascette_formats::blte::ChunkInfo::from_chunk_data, cascette_formats::blte::BlteHeader::multi_chunk_with_flags
 // @assumes same models as the builder-program families
-// @catches EXPECTED TO FAIL on the unchanged tree (genuine defect): assertion 'KF: chunk table decompressed_size of an encrypted chunk ...' (the builder records payload + 1: it counts the inner mode byte)
-blte_harness!(c01_kf_table_decompressed_size_encrypted, {
+// @catches encrypted chunk's table decompressed_size counting the inner mode byte (payload + 1) or the cipher header
+blte_harness!(c01_table_decompressed_size_encrypted, {
     let s: Sym<2> = Sym::any(S, S);
     let b = BlteBuilder::new().with_chunk_size_unchecked(3);
     let b = match b.add_mixed_data(&s.pay[0..2], Some((s.spec_b(), s.key_b))) {
@@ -686,7 +643,7 @@ blte_harness!(c01_kf_table_decompressed_size_encrypted, {
         }
     };
     kani::cover!(ext.chunk_infos.len() == 1, "one table entry");
-    assert!(ext.chunk_infos[0].decompressed_size as usize == decoded_len, "KF: chunk table decompressed_size of an encrypted chunk is not the number of bytes the chunk decodes to (builder records payload + 1, counting the inner mode byte)");
+    assert!(ext.chunk_infos[0].decompressed_size as usize == decoded_len, "chunk table decompressed_size of an encrypted chunk is not the number of bytes the chunk decodes to");
     std::mem::forget(out);
     std::mem::forget(store);
     std::mem::forget(file);
